@@ -114,6 +114,23 @@ def default_cfg(system):
     raise ValueError(system)
 
 
+def _set_volume(vol, Vm, spec):
+    """Specify the molar volume Vm through one of the three public ways (molar volume, unit-cell volume, lattice
+    parameter) with a given number of atoms per unit cell."""
+    NA = 6.02214076e23
+    if not spec:
+        vol.setVolume(Vm, 'VM', 4)
+        return
+    n = int(spec.get('atoms', 4))
+    t = spec.get('type', 'VM')
+    if t == 'VM':
+        vol.setVolume(Vm, 'VM', n)
+    elif t == 'VA':
+        vol.setVolume(n * Vm / NA, 'VA', n)
+    else:
+        vol.setVolume(float(np.cbrt(n * Vm / NA)), 'a', n)
+
+
 def build_model(cfg, therm, temperature_via='setter'):
     """PrecipitateModel from a configuration dict. May raise the library's documented ValueError for
     inadmissible combinations (caller counts those as rejected)."""
@@ -122,7 +139,7 @@ def build_model(cfg, therm, temperature_via='setter'):
     solutes = list(cfg['solutes'])
     matrix = MatrixParameters(solutes)
     x0 = cfg['x0']
-    matrix.volume.setVolume(cfg['VmAlpha'], 'VM', 4)
+    _set_volume(matrix.volume, cfg['VmAlpha'], (cfg.get('volSpec') or {}).get('alpha'))
     matrix.initComposition = float(x0[0]) if len(solutes) == 1 else [float(v) for v in x0]
     if 'GBenergy' in cfg:
         matrix.GBenergy = cfg['GBenergy']
@@ -146,7 +163,7 @@ def build_model(cfg, therm, temperature_via='setter'):
     for p in phases:
         pp = PrecipitateParameters(p)
         pp.gamma = cfg['gamma'][p]
-        pp.volume.setVolume(cfg['VmBeta'][p], 'VM', 4)
+        _set_volume(pp.volume, cfg['VmBeta'][p], ((cfg.get('volSpec') or {}).get('beta') or {}).get(p))
         shape = (cfg.get('shape') or {}).get(p)
         if shape:
             pp.shapeFactor.setPrecipitateShape(shape['name'], shape.get('ar', 1))
